@@ -6,7 +6,7 @@ The table `KinModel.Gen.descriptors` (regenerated from the repository on every r
 namespace KinModel.Marshal
 
 /-- Go type class of a struct field: decides the zero value and what JSON `null` does. -/
-inductive TC | str | bool | uint | ptr | slice | map | iface | value | addProps | unknown
+inductive TC | str | bool | uint | ptr | slice | map | nmap | iface | value | addProps | unknown
   deriving DecidableEq, Repr
 
 /-- class of the condition guarding `m["k"] = x` in a map-building marshaller -/
@@ -17,6 +17,7 @@ inductive Guard
 /-- what a field's value is, as far as the round trip is concerned -/
 inductive Shape
   | leaf                     -- plain JSON (strings, numbers, `any`, []string, map[string]string, …)
+  | strLeaf                  -- a string inside a named map type (null entry ↦ "")
   | kind (n : String)        -- a struct kind of the table (or an alias of one)
   | ref (n : String)         -- a `XRef` wrapper (row `n` of the table names the value's shape)
   | maplike (n : String)     -- Paths / Responses / Callback
@@ -64,6 +65,8 @@ structure Desc where
   hasUnm : Bool
   /-- ref wrapper / map-like / alias: the methods are instances of the one template -/
   uniform : Bool
+  /-- ref wrapper: `Value.MarshalYAML` tolerates a nil `Value` (pointer receiver with a nil check) -/
+  valueNilSafe : Bool
   post : List String
   unrecognised : List String
   deriving Repr
